@@ -60,6 +60,11 @@ def run(ctx):
             for k2 in range(1, 8 if quick else 12):
                 for k3 in (range(2, 14, 2) if quick else range(1, 16)):
                     scheds.append([0] * k1 + [1] * k2 + [0] * k3 + [1] * 300)
+        # the backup makes its first i operations -- up to its very last ones: the last hunk, the tail -- then the collector
+        # runs to its end, then the backup finishes (operations the backup has issued together are released in name order,
+        # so the tail can go out before a hunk issued with it)
+        for i in range(8, 52 if quick else 90):
+            scheds.append([0] * i + [1] * 400)
         for _ in range(60 if quick else 3000):
             s, cur = [], ctx.rng.randrange(2)
             for _ in range(ctx.rng.randrange(1, 5)):
